@@ -20,6 +20,27 @@ class TypedValue:
     ]
 
 
+@contract("yamlpath.common.searches.Searches.search_matches", props=["C12", "C15"])
+class SearchMatchesAnyTerm:
+    """Used at call sites: for ANY str term the only exception is YAMLPathException (an invalid regular
+    expression); whenever the term is well-formed the answer is the documented one."""
+    params = {"method": "PathSearchMethods", "needle": "str"}
+    raises = ["YAMLPathException"]
+    ensures = ["implies(not (method is PathSearchMethods.REGEX) or re_valid(needle),"
+               " same(result, spec.c12.search_matches(method, needle, haystack)))"]
+    opts = {"returns": "bool"}
+
+
+@contract("yamlpath.common.searches.Searches.search_matches", props=["C12", "C15"])
+class SearchMatchesCall:
+    """The face of search_matches that its 27 call sites use: a deterministic bool for a str term, the only
+    exception being YAMLPathException (invalid regular expression).  Implied by SearchMatchesAnyTerm (verified
+    against the body); kept separate so that callers' verification conditions stay small."""
+    params = {"method": "PathSearchMethods", "needle": "str"}
+    raises = ["YAMLPathException"]
+    opts = {"callsite": True, "returns": "bool", "pure": True}
+
+
 @contract("yamlpath.common.searches.Searches.search_matches", props=["C12"])
 class SearchMatches:
     """For a well-formed term (a str; a valid pattern for REGEX) the answer equals the documented
